@@ -41,6 +41,10 @@ def key_classes(rng, nk):
     out.append(("intmax-exact", [v for v in hi[:nk]]))
     out.append(("negative-low-word", [((rng.getrandbits(32) << 32) | (0x80000000 | rng.getrandbits(31))) for _ in range(nk)]))
     out.append(("random64", [rng.getrandbits(64) for _ in range(nk)]))
+    # distinct pointers that agree in their low 32 bits (the part the bucket function looks at): identity is the whole pointer
+    lw = rng.getrandbits(32)
+    out.append(("same-low-word", [lw | (i << 32) for i in rng.sample(range(0, 1 << 20), nk)]))
+    out.append(("same-low-word-as-NULL", [0] + [i << 32 for i in rng.sample(range(1, 1 << 20), nk - 1)]))
     for name, ks in out:
         if len(set(ks)) != len(ks):
             raise Machinery("key class %s not distinct" % name)
